@@ -460,6 +460,152 @@ def case_simulations(seed):
     return recs
 
 
+def case_moved_mesh(gname, mesh):
+    """the SAME Field and form objects, with coefficients read from field.Get_coords() inside
+    the form, integrated again after the mesh was translated and after mesh.coord was reset:
+    they must keep matching the built-in operators fed with the coefficient at the current
+    Gauss points (and a freshly built field)."""
+    from EasyFEA.FEM import Field, BiLinearForm, LinearForm, MatrixType
+    from EasyFEA.FEM.Operators import Bilinear, Linear
+    recs = []
+    g = mesh.groupElem
+    mt = MatrixType.mass
+    field = Field(g, 1, mt)
+
+    def coef(x, y):
+        return 1.0 + 0.5 * x + 0.25 * y * y
+
+    def diffusion(u, v):
+        x, y, _ = u.Get_coords()
+        return coef(x, y) * u.grad.dot(v.grad)
+
+    def reaction(u, v):
+        x, y, _ = v.Get_coords()
+        return coef(x, y) * u.dot(v)
+
+    def source(v):
+        x, y, _ = v.Get_coords()
+        return coef(x, y) * v
+    fd, fr, fs = BiLinearForm(diffusion), BiLinearForm(reaction), LinearForm(source)
+
+    def rec(step, name, ok, d):
+        recs.append({"id": "moved:%s:%s:%s" % (gname, step, name), "what": "%s after %s" % (name, step), "ok": bool(ok), "detail": d,
+                     "form": "c(x,y)*%s with c from field.Get_coords()" % name, "kind": "moved-mesh", "tag": "generic"})
+
+    def compare(step):
+        xyz = np.asarray(g.Get_GaussCoordinates_e_pg(mt))
+        c = coef(xyz[..., 0], xyz[..., 1])
+        for name, fn in (("grad(u).grad(v)=GradUGradV", lambda: close(fd.Integrate_e(field), Bilinear.GradUGradV(g, c, mt))),
+                         ("u.v=UV", lambda: close(fr.Integrate_e(field), Bilinear.UV(g, c, 1, mt))),
+                         ("v=V", lambda: close(np.asarray(fs.Integrate_e(field))[..., 0], np.asarray(Linear.V(g, c, 1, mt)).reshape(g.Ne, -1))),
+                         ("same-field=fresh-field", lambda: close(fr.Integrate_e(field), fr.Integrate_e(Field(g, 1, mt))))):
+            try:
+                rec(step, name, *fn())
+            except Exception as ex:
+                rec(step, name, False, "%s: %s" % (type(ex).__name__, str(ex)[:200]))
+    compare("initial")
+    mesh.Translate(dx=2.0, dy=-1.0)
+    compare("mesh.Translate")
+    newCoord = mesh.coord.copy()
+    newCoord[:, :2] *= 1.5
+    mesh.coord = newCoord
+    compare("mesh.coord=1.5*coord")
+    return recs
+
+
+def case_simulations_F(seed):
+    """weak-form simulations with a source term (computeF) on plates of thickness != 1:
+    K, C, M and F against thickness * built-in operators, solution against the dedicated one"""
+    from EasyFEA import Models, Simulations, ElemType, SolverType
+    from EasyFEA.FEM import Field, BiLinearForm, LinearForm, Sym_Grad, Trace, MatrixType
+    from EasyFEA.FEM.Operators import Bilinear, Linear
+    from EasyFEA.Geoms import Domain
+    recs = []
+
+    def rec(name, ok, d, tag="generic"):
+        recs.append({"id": "simuF:%s" % name, "what": name, "ok": bool(ok), "detail": d, "form": name, "kind": "simulation", "tag": tag})
+
+    def src(x, y, z):
+        return 1.0 + 2.0 * x + y * y
+    for thickness in (0.25, 2.0):
+        tname = "t=%g" % thickness
+        try:
+            mesh = Domain((0, 0), (1, 1), 0.5).Mesh_2D([], ElemType.TRI6, isOrganised=True)
+            g = mesh.groupElem
+            n0 = mesh.Nodes_Conditions(lambda x, y, z: x == 0)
+            n1 = mesh.Nodes_Conditions(lambda x, y, z: x == 1)
+            k, c = 3.0, 2.0
+            # reference with thickness 1: Dirichlet + volumetric source -> thickness-independent solution
+            th = Simulations.Thermal(mesh, Models.Thermal(k=k, c=c, thickness=1.0))
+            th.solver = SolverType.scipy
+            th.add_dirichlet(n0, [0], ["t"])
+            th.add_dirichlet(n1, [1], ["t"])
+            th.add_volumeLoad(mesh.nodes, [src], ["t"])
+            th.Solve()
+            field = Field(g, 1)
+            mt = field.matrixType
+
+            def lf(v):
+                x, y, z = v.Get_coords()
+                return src(x, y, z) * v
+            wf = Models.WeakForms(field, BiLinearForm(lambda u, v: k * u.grad.dot(v.grad)), computeC=BiLinearForm(lambda u, v: c * u.dot(v)),
+                                  computeF=LinearForm(lf), thickness=thickness)
+            ws = Simulations.WeakForms(mesh, wf)
+            ws.solver = SolverType.scipy
+            K, C, M, F = ws.Get_K_C_M_F()
+            xyz = np.asarray(g.Get_GaussCoordinates_e_pg(mt))
+            f_e_pg = src(xyz[..., 0], xyz[..., 1], xyz[..., 2])
+            rec("%s:thermal:K=t*GradUGradV" % tname, *close(K.toarray(), scatter(g, 1, thickness * np.asarray(Bilinear.GradUGradV(g, k, mt)))))
+            rec("%s:thermal:C=t*UV" % tname, *close(C.toarray(), scatter(g, 1, thickness * np.asarray(Bilinear.UV(g, c, 1, mt)))))
+            Fe = np.asarray(Linear.V(g, f_e_pg, 1, mt)).reshape(g.Ne, -1)
+            rec("%s:thermal:F=t*V" % tname, *close(np.asarray(F.todense()).ravel(), scatter(g, 1, thickness * Fe)))
+            ws.add_dirichlet(n0, [0], ["u"])
+            ws.add_dirichlet(n1, [1], ["u"])
+            ws.Solve()
+            rec("%s:thermal:solution-with-source" % tname, *close(ws.u, th.thermal))
+        except Exception:
+            rec("%s:thermal" % tname, False, traceback.format_exc()[-600:])
+        try:
+            mat = Models.Elastic.Isotropic(2, E=8.0, v=0.25, planeStress=True, thickness=thickness)
+            lam, mu, rho = mat.get_lambda(), mat.get_mu(), 2.0
+            es = Simulations.Elastic(mesh, mat)
+            es.rho = rho
+            es.solver = SolverType.scipy
+            es.add_dirichlet(n0, [0, 0], ["x", "y"])
+            es.add_volumeLoad(mesh.nodes, [lambda x, y, z: -2.0 * (1 + x)], ["y"])
+            es.Solve()
+            field2 = Field(g, 2)
+            mt2 = field2.matrixType
+            ey = np.array([0.0, 1.0])
+
+            def Kf(u, v):
+                Eps = Sym_Grad(u)
+                return (2 * mu * Eps + lam * Trace(Eps) * np.eye(2)).ddot(Sym_Grad(v))
+
+            def Ff(v):
+                x, _, _ = v.Get_coords()
+                return (-2.0 * (1 + x)) * v.dot(ey)
+            wf2 = Models.WeakForms(field2, BiLinearForm(Kf), computeM=BiLinearForm(lambda u, v: rho * u.dot(v)), computeF=LinearForm(Ff), thickness=thickness)
+            ws2 = Simulations.WeakForms(mesh, wf2)
+            ws2.solver = SolverType.scipy
+            K, C, M, F = ws2.Get_K_C_M_F()
+            Ke, _, Me, _ = es.Get_K_C_M_F()
+            rec("%s:elastic:K" % tname, *close(K.toarray(), Ke.toarray()))
+            rec("%s:elastic:M" % tname, *close(M.toarray(), Me.toarray()), tag="vector-val")
+            D = Data(g, 2, mt2)
+            xyz = np.asarray(g.Get_GaussCoordinates_e_pg(mt2))
+            fy = -2.0 * (1 + xyz[..., 0])
+            Fe = np.zeros((D.Ne, D.nPe, 2))
+            Fe[:, :, 1] = np.einsum("ep,pa->ea", D.w * fy, D.N)
+            rec("%s:elastic:F=t*int(f.N)" % tname, *close(np.asarray(F.todense()).ravel(), scatter(g, 2, thickness * Fe.reshape(D.Ne, -1))), tag="vector-val")
+            ws2.add_dirichlet(n0, [0, 0], ["x", "y"])
+            ws2.Solve()
+            rec("%s:elastic:solution-with-source" % tname, *close(ws2.u, es.displacement), tag="vector-val")
+        except Exception:
+            rec("%s:elastic" % tname, False, traceback.format_exc()[-600:])
+    return recs
+
+
 def run(seed, tier, only=None):
     cases = []
     nform = 4 if tier == "quick" else 14
@@ -473,6 +619,19 @@ def run(seed, tier, only=None):
         except Exception:
             cases.append({"id": "group:%s" % gname, "what": "harness", "ok": False, "detail": traceback.format_exc()[-800:], "form": "", "kind": "harness", "tag": "generic"})
     cases += case_simulations(seed)
+    cases += case_simulations_F(seed)
+    from corr import c16_impl as M
+    from EasyFEA import ElemType
+    from EasyFEA.Geoms import Domain
+    moved = [("TRI3-fan", M.mesh_2d_fan()), ("QUAD8", Domain((0, 0), (1, 1), 0.5).Mesh_2D([], ElemType.QUAD8, isOrganised=True))]
+    if tier == "thorough":
+        moved.append(("TETRA4", M.mesh_3d_tets()))
+        moved.append(("TRI6", Domain((0, 0), (1, 1), 0.5).Mesh_2D([], ElemType.TRI6, isOrganised=True)))
+    for gname, mesh in moved:
+        try:
+            cases += case_moved_mesh(gname, mesh)
+        except Exception:
+            cases.append({"id": "moved:%s" % gname, "what": "harness", "ok": False, "detail": traceback.format_exc()[-800:], "form": "", "kind": "harness", "tag": "generic"})
     if only:
         cases = [c for c in cases if c["id"] in only]
     return cases
